@@ -194,7 +194,8 @@ class extract_visitor(NodeVisitor):
                 else:
                     fh.add_name(AssignedName(h.name, np(h.body[0]), np(h), h.type))  # type: ignore[arg-type]
             if h.type:
-                self.visit(h.type)
+                # evaluated when the exception arrives: names bound in the try body are visible
+                fh = self.visit_in_flow(h.type, fh)
             handlers.append(self.visit_in_flow(h.body, fh))
 
         orelse = self.visit_in_flow(node.orelse,
